@@ -436,6 +436,12 @@ Definition roomy (hc : hcfg) (ps : pass) : bool :=
   let held := Z.max (ghosts ps false) (ghosts ps true) in
   (lenz (filter (fun p => negb (p_rdma p)) (ps_pods ps)) + held + h_max hc <=? per * h_fs hc)
   && (lenz (filter p_rdma (ps_pods ps)) + held <=? per * h_fr hc).
+(* the lower edge of the band: the idle addresses the refill counts (valid, unowned, on attached interfaces that are
+   not RDMA ones), per enabled family *)
+Definition idle_fam (c : cr) (six : bool) : Z :=
+  fold_left Z.add (map (fun e => if (e_status e =? 1) && (e_mode e =? 0) then idle_valid (fam_of e six) else 0) c) 0.
+Definition min_ok (hc : hcfg) (ps : pass) : bool :=
+  (negb (h_on4 hc) || (h_min hc <=? idle_fam (ps_cr ps) false)) && (negb (h_on6 hc) || (h_min hc <=? idle_fam (ps_cr ps) true)).
 (* a pod that reports no address yet is eligible for one *)
 (* (a pod that kept one family after the other vanished in the cloud is tied to that interface: the conservative
    capacity estimate above says nothing about room there, so it is not counted) *)
@@ -467,6 +473,7 @@ Definition pass_why (prop : Z) (hc : hcfg) (pre : cr) (ps : pass) (togo : Z) : Z
     else if (togo <? 2) && all_bound hc ps && mutating (ps_calls ps) then 803    (* the tail is a fixed point *)
     else if (togo <? 2) && all_bound hc ps && negb (list_eqb (enc_cr pre) (enc_cr post)) then 804
     else if (togo <? 2) && negb (agree post (ps_cloud ps)) then 805
+    else if (togo <? 2) && all_bound hc ps && roomy hc ps && negb (min_ok hc ps) then 808     (* the pool holds its minimum *)
     else 0.
 (* a round whose only failure was the status-update conflict forces a full synchronisation: if record and cloud
    agreed before it, they agree again after the next round that runs without any failure *)
